@@ -4,6 +4,7 @@ package main
 // RIB halves of C07/C08).
 
 import (
+	"errors"
 	"fmt"
 	"math/rand/v2"
 	"reflect"
@@ -547,7 +548,31 @@ func entsLine(r *rib.RIB) (string, []string, error) {
 }
 
 // ObsRIB appends the observation lines (contents, counters, held ids) of r to t.
+// errHang: reading the state of the code under test did not return (a lock is held for good);
+// the trace has a "hang" line and the case ends there.
+var errHang = errors.New("the code under test did not answer (hang)")
+
+// ObsRIB appends the observations of the RIB's state. It runs under a watchdog: with a leaked
+// lock the reads never return, and the case must end (as a hang) rather than the run.
 func ObsRIB(t *Trace, r *rib.RIB) error {
+	tt := &Trace{}
+	done := make(chan error, 1)
+	go func() { done <- obsRIB(tt, r) }()
+	select {
+	case err := <-done:
+		if err != nil {
+			return err
+		}
+		t.Lines = append(t.Lines, tt.Lines...)
+		return nil
+	case <-time.After(wd(20 * time.Second)):
+		noteIfWedged()
+		t.Add("hang")
+		return errHang
+	}
+}
+
+func obsRIB(t *Trace, r *rib.RIB) error {
 	line, nis, err := entsLine(r)
 	if err != nil {
 		return err
@@ -627,123 +652,153 @@ func RunRibHistory(name string, cfg *RibCfg, steps []Step) (*Trace, error) {
 	}
 	for _, s := range steps {
 		crashed := ""
-		func() {
-			defer func() {
-				if p := recover(); p != nil {
-					crashed = fmt.Sprint(p)
+		// the step runs under a watchdog: a call into the RIB that never returns (a leaked lock, a
+		// lock-order inversion with the second writer) ends the history as a hang instead of the run.
+		// The step writes its lines to a buffer of its own, which is taken over only if it finished.
+		var lmu sync.Mutex
+		lines := []string{}
+		add := func(format string, a ...interface{}) {
+			lmu.Lock()
+			lines = append(lines, fmt.Sprintf(format, a...))
+			lmu.Unlock()
+		}
+		stepDone := make(chan struct{})
+		go func() {
+			defer close(stepDone)
+			func() {
+				defer func() {
+					if p := recover(); p != nil {
+						crashed = fmt.Sprint(p)
+					}
+				}()
+				if s.Gap != nil && (s.Kind == "add" || s.Kind == "del") {
+					var once atomic.Bool
+					yDone := make(chan string, 1)
+					r.SetPostChangeHook(func(constants.OpType, int64, string, ygot.ValidatedGoStruct) {
+						if once.Swap(true) {
+							return
+						}
+						go func() {
+							defer func() {
+								if p := recover(); p != nil {
+									yDone <- fmt.Sprintf("crash %s %s", Describe(s.Gap.Op, s.Gap.Cls).Enc(), S(fmt.Sprint(p)))
+								}
+							}()
+							yDone <- runOp(*s.Gap)
+						}()
+						select {
+						case l := <-yDone:
+							yDone <- l
+						case <-time.After(25 * time.Millisecond):
+						}
+					})
+					xl := runOp(s)
+					add("%s", xl)
+					if !once.Load() {
+						// X changed nothing, so there was no gap: Y simply runs next
+						r.SetPostChangeHook(nil)
+						add("%s", runOp(*s.Gap))
+					} else {
+						select {
+						case l := <-yDone:
+							add("%s", l)
+						case <-time.After(wd(5 * time.Second)):
+							add("hang")
+						}
+						// only now (Y has finished) is it safe to take the hook away again
+						r.SetPostChangeHook(nil)
+					}
+					return
+				}
+				if s.Gap != nil && s.Kind == "flush" {
+					// a Flush with a second writer let in at its first notification: the recording hook
+					// stays registered (the notifications are the subject), and the second writer's
+					// operation is started from inside the hook call
+					var once atomic.Bool
+					yDone := make(chan string, 1)
+					r.SetPostChangeHook(func(ot constants.OpType, ts int64, ni string, e ygot.ValidatedGoStruct) {
+						h.fn(ot, ts, ni, e)
+						if once.Swap(true) {
+							return
+						}
+						go func() {
+							defer func() {
+								if p := recover(); p != nil {
+									yDone <- fmt.Sprintf("crash %s %s", Describe(s.Gap.Op, s.Gap.Cls).Enc(), S(fmt.Sprint(p)))
+								}
+							}()
+							yDone <- runOp(*s.Gap)
+						}()
+						select {
+						case l := <-yDone:
+							yDone <- l
+						case <-time.After(25 * time.Millisecond):
+						}
+					})
+					nis := []string{}
+					for _, n := range s.NIs {
+						if _, ok := r.NetworkInstanceRIB(n); ok {
+							nis = append(nis, n)
+						}
+					}
+					err := r.Flush(nis)
+					add("rib.flush %s => %s", LS(nis), B(err == nil))
+					if !once.Load() {
+						add("%s", runOp(*s.Gap))
+					} else {
+						select {
+						case l := <-yDone:
+							add("%s", l)
+						case <-time.After(wd(5 * time.Second)):
+							add("hang")
+						}
+					}
+					r.SetPostChangeHook(h.fn)
+					return
+				}
+				switch s.Kind {
+				case "sethook":
+					r.SetPostChangeHook(h.fn)
+					add("rib.sethook")
+				case "addni":
+					err := r.AddNetworkInstance(s.NI)
+					add("rib.addni %s => %s", S(s.NI), B(err == nil))
+				case "flush":
+					nis := []string{}
+					for _, n := range s.NIs {
+						if _, ok := r.NetworkInstanceRIB(n); ok {
+							nis = append(nis, n)
+						}
+					}
+					err := r.Flush(nis)
+					add("rib.flush %s => %s", LS(nis), B(err == nil))
+				case "add":
+					m := Describe(s.Op, s.Cls)
+					oks, fails, err := r.AddEntry(s.Op.GetNetworkInstance(), s.Op)
+					add("rib.add %s => %s %s %s", m.Enc(), L(resIDs(oks)), L(resIDs(fails)), B(err != nil))
+				case "del":
+					m := Describe(s.Op, s.Cls)
+					oks, fails, err := r.DeleteEntry(s.Op.GetNetworkInstance(), s.Op)
+					add("rib.del %s => %s %s %s", m.Enc(), L(resIDs(oks)), L(resIDs(fails)), B(err != nil))
 				}
 			}()
-			if s.Gap != nil && (s.Kind == "add" || s.Kind == "del") {
-				var once atomic.Bool
-				yDone := make(chan string, 1)
-				r.SetPostChangeHook(func(constants.OpType, int64, string, ygot.ValidatedGoStruct) {
-					if once.Swap(true) {
-						return
-					}
-					go func() {
-						defer func() {
-							if p := recover(); p != nil {
-								yDone <- fmt.Sprintf("crash %s %s", Describe(s.Gap.Op, s.Gap.Cls).Enc(), S(fmt.Sprint(p)))
-							}
-						}()
-						yDone <- runOp(*s.Gap)
-					}()
-					select {
-					case l := <-yDone:
-						yDone <- l
-					case <-time.After(25 * time.Millisecond):
-					}
-				})
-				xl := runOp(s)
-				t.Add("%s", xl)
-				if !once.Load() {
-					// X changed nothing, so there was no gap: Y simply runs next
-					r.SetPostChangeHook(nil)
-					t.Add("%s", runOp(*s.Gap))
-				} else {
-					select {
-					case l := <-yDone:
-						t.Add("%s", l)
-					case <-time.After(wd(5 * time.Second)):
-						t.Add("hang")
-					}
-					// only now (Y has finished) is it safe to take the hook away again
-					r.SetPostChangeHook(nil)
-				}
-				return
-			}
-			if s.Gap != nil && s.Kind == "flush" {
-				// a Flush with a second writer let in at its first notification: the recording hook
-				// stays registered (the notifications are the subject), and the second writer's
-				// operation is started from inside the hook call
-				var once atomic.Bool
-				yDone := make(chan string, 1)
-				r.SetPostChangeHook(func(ot constants.OpType, ts int64, ni string, e ygot.ValidatedGoStruct) {
-					h.fn(ot, ts, ni, e)
-					if once.Swap(true) {
-						return
-					}
-					go func() {
-						defer func() {
-							if p := recover(); p != nil {
-								yDone <- fmt.Sprintf("crash %s %s", Describe(s.Gap.Op, s.Gap.Cls).Enc(), S(fmt.Sprint(p)))
-							}
-						}()
-						yDone <- runOp(*s.Gap)
-					}()
-					select {
-					case l := <-yDone:
-						yDone <- l
-					case <-time.After(25 * time.Millisecond):
-					}
-				})
-				nis := []string{}
-				for _, n := range s.NIs {
-					if _, ok := r.NetworkInstanceRIB(n); ok {
-						nis = append(nis, n)
-					}
-				}
-				err := r.Flush(nis)
-				t.Add("rib.flush %s => %s", LS(nis), B(err == nil))
-				if !once.Load() {
-					t.Add("%s", runOp(*s.Gap))
-				} else {
-					select {
-					case l := <-yDone:
-						t.Add("%s", l)
-					case <-time.After(wd(5 * time.Second)):
-						t.Add("hang")
-					}
-				}
-				r.SetPostChangeHook(h.fn)
-				return
-			}
-			switch s.Kind {
-			case "sethook":
-				r.SetPostChangeHook(h.fn)
-				t.Add("rib.sethook")
-			case "addni":
-				err := r.AddNetworkInstance(s.NI)
-				t.Add("rib.addni %s => %s", S(s.NI), B(err == nil))
-			case "flush":
-				nis := []string{}
-				for _, n := range s.NIs {
-					if _, ok := r.NetworkInstanceRIB(n); ok {
-						nis = append(nis, n)
-					}
-				}
-				err := r.Flush(nis)
-				t.Add("rib.flush %s => %s", LS(nis), B(err == nil))
-			case "add":
-				m := Describe(s.Op, s.Cls)
-				oks, fails, err := r.AddEntry(s.Op.GetNetworkInstance(), s.Op)
-				t.Add("rib.add %s => %s %s %s", m.Enc(), L(resIDs(oks)), L(resIDs(fails)), B(err != nil))
-			case "del":
-				m := Describe(s.Op, s.Cls)
-				oks, fails, err := r.DeleteEntry(s.Op.GetNetworkInstance(), s.Op)
-				t.Add("rib.del %s => %s %s %s", m.Enc(), L(resIDs(oks)), L(resIDs(fails)), B(err != nil))
-			}
 		}()
+		hung := false
+		select {
+		case <-stepDone:
+		case <-time.After(wd(20 * time.Second)):
+			noteIfWedged()
+			hung = true
+		}
+		if hung {
+			t.Add("hang")
+			break
+		}
+		lmu.Lock()
+		for _, l := range lines {
+			t.Add("%s", l)
+		}
+		lmu.Unlock()
 		if crashed != "" {
 			// a panic may leave locks held: the history ends here
 			if s.Op != nil {
@@ -757,6 +812,9 @@ func RunRibHistory(name string, cfg *RibCfg, steps []Step) (*Trace, error) {
 			continue
 		}
 		if err := ObsRIB(t, r); err != nil {
+			if errors.Is(err, errHang) {
+				break
+			}
 			return t, err
 		}
 		evs := h.drain()
